@@ -160,6 +160,40 @@ template <typename T> static void shape_str(const T* t, std::string& o) {
     else o += 'L';
 }
 
+// C11: schedule-point hook (LIBFIVE_VERIF): raise cancel at the k-th visit of a named site
+#include <chrono>
+static const char* SCHED_SITES[] = {"pool.loop", "pool.leaf", "pool.collect", "assign.loop", "dual.loop", "dual.work",
+                                    "mesh.after_build", "mesh.after_assign", "mesh.after_walk"};
+static const int N_SCHED_SITES = sizeof(SCHED_SITES) / sizeof(SCHED_SITES[0]);
+static std::atomic<long> g_site_count[16];
+static int g_cancel_site = -1; static long g_cancel_k = 0;
+static const BRepSettings* g_cancel_settings = nullptr;
+static std::atomic<int> g_cancel_fired(0);
+static void sched_hook(const char* site, const BRepSettings* st) {
+    for (int i = 0; i < N_SCHED_SITES; ++i) {
+        if (strcmp(site, SCHED_SITES[i]) == 0) {
+            long c = ++g_site_count[i];
+            if (i == g_cancel_site && c == g_cancel_k) {
+                const BRepSettings* tgt = st ? st : g_cancel_settings;
+                if (tgt) { tgt->cancel.store(true); g_cancel_fired.store(1); }
+            }
+            return;
+        }
+    }
+}
+static bool mesh_closed(const Mesh& m) {
+    std::map<std::pair<uint32_t, uint32_t>, int> edges;
+    for (auto& t : m.branes) {
+        for (int e = 0; e < 3; ++e) {
+            uint32_t a = t(e), b = t((e + 1) % 3);
+            if (a == b) return false;
+            if (++edges[{a, b}] > 1) return false;
+        }
+    }
+    for (auto& kv : edges) if (!edges.count({kv.first.second, kv.first.first})) return false;
+    return !m.branes.empty();
+}
+
 struct Ctx {
     std::vector<Tree> handles;
     std::vector<Tree> vars;
@@ -1111,6 +1145,32 @@ int main(int argc, char** argv) {
                 h.finish();
                 out("PS level=" + std::to_string(level) + " build=" + after_build + " walk=" + after_walk + " reset=" + after_reset
                     + " tris=" + std::to_string(tris) + " shape=" + shape);
+            }
+            else if (c == "cancel") {
+                // cancel h alg workers minfeat lx ly lz ux uy uz site k   (site = -1: never)
+                Tree tr = H(t[1]);
+                BRepSettings st;
+                int alg = std::stoi(t[2]);
+                st.alg = alg == 0 ? DUAL_CONTOURING : alg == 1 ? ISO_SIMPLEX : HYBRID;
+                st.workers = (unsigned)std::stoul(t[3]);
+                st.min_feature = of_hex32(t[4]);
+                Region<3> rg({of_hex32(t[5]), of_hex32(t[6]), of_hex32(t[7])}, {of_hex32(t[8]), of_hex32(t[9]), of_hex32(t[10])});
+                g_cancel_site = std::stoi(t[11]); g_cancel_k = std::stol(t[12]);
+                for (auto& c2 : g_site_count) c2.store(0);
+                g_cancel_fired.store(0);
+                g_cancel_settings = &st;
+                libfive::verif_sched_point = sched_hook;
+                auto t0 = std::chrono::steady_clock::now();
+                auto mesh = Mesh::render(tr, rg, st);
+                auto ms = std::chrono::duration_cast<std::chrono::milliseconds>(std::chrono::steady_clock::now() - t0).count();
+                libfive::verif_sched_point = nullptr;
+                std::ostringstream o;
+                o << "CN site=" << g_cancel_site << " k=" << g_cancel_k << " fired=" << g_cancel_fired.load()
+                  << " result=" << (mesh ? "mesh" : "null");
+                if (mesh) o << " tris=" << mesh->branes.size() << " verts=" << mesh->verts.size() << " closed=" << mesh_closed(*mesh);
+                o << " ms=" << ms << " counts=";
+                for (int i = 0; i < N_SCHED_SITES; ++i) o << (i ? "," : "") << g_site_count[i].load();
+                out(o.str());
             }
             else if (c == "ivcheck") {
                 // ivcheck h lx ly lz ux uy uz exact(0/1) : C02's statement on one expression and box
